@@ -228,6 +228,19 @@ func checkC03(c *Check) {
 	// ---- R7: no extra rejections
 	c03R7(c, R, m)
 	optionalNonceRule(c, "C03.R7", R)
+	// the provider's answer is read whole: the reader handed to io.ReadAll is the response body itself, not a
+	// truncating wrapper (a compliant answer with large tokens would be cut and fail to decode)
+	if R.TokenExchange != nil {
+		nRead := 0
+		for _, ci := range callsToDeep(R.TokenExchange, 2, "io.ReadAll") {
+			nRead++
+			arg := resolveCell(stripConv(ci.Common().Args[0]))
+			_, f, isL := fieldLoad(arg)
+			c.Obl(isL && f != nil && f.Name() == "Body", "C03.R5", "answer-read-whole/"+nthCallKey(ci), P.Pos(ci.Pos()), "io.ReadAll reads the response body itself",
+				"the token endpoint answer is read through "+descDepth(arg, 3)+" instead of the response body itself: an answer that exceeds the wrapper's limit is truncated and the login cannot complete")
+		}
+		c.Obl(nRead >= 1, "C03.R5", "answer-read", P.Pos(R.TokenExchange.Pos()), fmt.Sprintf("%d read(s) of the token endpoint answer", nRead), "the token exchange no longer reads the answer with io.ReadAll (anchor lost)")
+	}
 	// the code-for-token request must reach the provider as it was built (C04.R2's transport rule)
 	transportPreservesRequest(c, "C03.R5")
 	// a redirect answer keeps its own Location and cookie until it is sent (no shared header backing array)
